@@ -141,6 +141,10 @@ fa = os.path.join(V, 'design.d', '_false_alarms.md')
 if os.path.exists(fa):
     out += ['## 13. False alarms of the machinery that were found and corrected', '', open(fa).read().strip(), '']
 
+st = os.path.join(V, 'design.d', '_status.md')
+if os.path.exists(st):
+    out += ['## 14. Status at the last full validation', '', open(st).read().strip(), '']
+
 p = os.path.join(V, 'DESIGN.md')
 s = open(p).read()
 if MARK in s:
